@@ -11,24 +11,30 @@ git -C /repo worktree add -q $WT HEAD || exit 2
 run_demo() { # $1 = seeded dir ; returns demo exit status
   d="$V/$1/demo"
   cd $WT || return 99
+  sub=$(ls -d "$d"/demo_*/ 2>/dev/null | head -1)
   if ls "$d"/tests/demo_*.rs >/dev/null 2>&1; then
     cp -r "$d"/tests/* tests/; t=$(basename "$d"/tests/demo_*.rs .rs)
     cargo test --offline --features cli,lsp --test "$t" >/tmp/sv-demo.log 2>&1; return $?
   elif ls "$d"/demo_*.rs >/dev/null 2>&1; then
-    cp "$d"/demo_*.rs tests/; t=$(basename "$d"/demo_*.rs .rs)
+    for f in "$d"/*; do case "$(basename "$f")" in README*|*.txt) ;; *) cp -r "$f" tests/ ;; esac; done
+    t=$(basename "$d"/demo_*.rs .rs)
     cargo test --offline --features cli,lsp --test "$t" >/tmp/sv-demo.log 2>&1; return $?
+  elif [ -n "$sub" ] && [ -f "$sub/run.sh" ]; then
+    cp -r "$sub" "$WT/"; bash "$(basename "$sub")/run.sh" >/tmp/sv-demo.log 2>&1; return $?
   else
     s=$(ls "$d"/*.sh | head -1)
     sh "$s" "$WT" >/tmp/sv-demo.log 2>&1 || bash "$s" "$WT" >/tmp/sv-demo.log 2>&1; return $?
   fi
 }
-for dir in seeded/*/; do
+cd "$V"
+for dir in $(ls -d seeded/*/); do
+  cd "$V"
   dir=${dir%/}
   [ -f "$dir/patch.diff" ] || continue
   if [ -f "$dir/verified.json" ] && [ -z "$FORCE" ]; then continue; fi
-  git -C $WT checkout -q -- . ; git -C $WT clean -qfd tests examples >/dev/null 2>&1
+  git -C $WT checkout -q -- . ; git -C $WT clean -qfd >/dev/null 2>&1
   run_demo "$dir"; clean_rc=$?
-  git -C $WT checkout -q -- . ; git -C $WT clean -qfd tests >/dev/null 2>&1
+  git -C $WT checkout -q -- . ; git -C $WT clean -qfd >/dev/null 2>&1
   git -C $WT apply "$V/$dir/patch.diff" || { echo "$dir: patch does not apply"; continue; }
   ( cd $WT && cargo test --workspace --no-fail-fast --offline > /tmp/sv-suite.log 2>&1 ); suite_rc=$?
   passed=$(grep -E "^test result" /tmp/sv-suite.log | awk '{p+=$4; f+=$6} END {print p" passed "f" failed"}')
